@@ -4,6 +4,6 @@ CONSTANTS
   Atomic = TRUE
   MaxCrash = 0
   Scenario = "fresh"
-  EditOps = {"none", "reset", "set", "resetsub"}
+  EditOps = {"none", "reset", "set", "resetsub", "resetcli"}
 INVARIANT SimPrint
 CHECK_DEADLOCK FALSE
